@@ -118,6 +118,10 @@ func (core *JApiCore) compileUserTypeWithAllDependencies(name string) error {
 		return jschemaToJAPIError(err, dd.GetValue(name))
 	}
 
+	// usesUnfinishedType is true when this type is a part of a recursion which
+	// started from a type that is not completely assembled yet.
+	usesUnfinishedType := false
+
 	for _, n := range tt {
 		ut := core.userTypes.GetValue(n)
 		if ut == nil {
@@ -125,6 +129,10 @@ func (core *JApiCore) compileUserTypeWithAllDependencies(name string) error {
 		}
 
 		if n != name {
+			if core.isUserTypeInProgress(n) {
+				usesUnfinishedType = true
+			}
+
 			if err := core.compileUserTypeWithAllDependencies(n); err != nil {
 				return err
 			}
@@ -142,7 +150,12 @@ func (core *JApiCore) compileUserTypeWithAllDependencies(name string) error {
 	// Check user type is correct.
 	// We should do it here 'cause it will simplify further processing.
 	if err := currUT.Check(); err != nil {
-		return jschemaToJAPIError(err, core.userTypeDirectiveForError(err, name))
+		// A problem found inside a type which is not assembled yet is left to the
+		// check of that type: from here it is found in an unpredictable order and
+		// with an index which does not belong to this type.
+		if !usesUnfinishedType || !core.isErrorInsideUnfinishedUserType(err, name) {
+			return jschemaToJAPIError(err, core.userTypeDirectiveForError(err, name))
+		}
 	}
 
 	if js, ok := currUT.(*jschema.JSchema); ok && js.Inner.RootNode() == nil {
@@ -151,8 +164,27 @@ func (core *JApiCore) compileUserTypeWithAllDependencies(name string) error {
 	}
 
 	core.userTypes.Set(name, currUT)
+	if core.assembledUserTypes == nil {
+		core.assembledUserTypes = make(map[string]struct{}, 30)
+	}
+	core.assembledUserTypes[name] = struct{}{}
 
 	return nil
+}
+
+func (core *JApiCore) isErrorInsideUnfinishedUserType(err error, name string) bool {
+	var e kit.Error
+	if !stdErrors.As(err, &e) {
+		return false
+	}
+	n := e.Filename() // a schema of a user type is named after the type
+	return n != "" && n != name && core.isUserTypeInProgress(n)
+}
+
+func (core *JApiCore) isUserTypeInProgress(name string) bool {
+	_, started := core.processedUserTypes[name]
+	_, assembled := core.assembledUserTypes[name]
+	return started && !assembled
 }
 
 func (core *JApiCore) checkUserTypeDuringBuild(name string, ut schema.Schema) error {
